@@ -430,11 +430,10 @@ def handle (memo : Memo) (line : String) : Memo × String :=
                 | ft :: r4 =>
                   let file : Option (Option Bytes) := if ft == "-" then some none else (parseHexBytes (match ft.toList with | 'x' :: r => String.ofList r | l => String.ofList l)).map some
                   match file, parseVal r4 with
-                  | some fl, some (.j f, []) =>
-                    (match signRootMdFileViaGpg G sslib fl f with
+                  | some fl, some (f, []) =>
+                    (match signRootMdFileViaGpgV G sslib fl f with
                      | .ok b => (memo, "B " ++ hexStr b)
                      | .error e => (memo, "E " ++ e.name))
-                  | some _, some (_, []) => (memo, "E ArgError")
                   | _, _ => (memo, "X bad-args")
                 | _ => (memo, "X bad-args")
               | "clisign" => match r3 with
